@@ -55,7 +55,9 @@ type monC10 struct {
 	issued    uint64 // ids issued so far according to successful create txs
 }
 
-func init() { registerMonitor(func(w *World) Monitor { return &monC10{w: w, prev: map[string]cObs{}} }) }
+func init() {
+	registerMonitor(func(w *World) Monitor { return &monC10{w: w, prev: map[string]cObs{}} })
+}
 
 func (m *monC10) Name() string { return "C10" }
 
